@@ -6,8 +6,8 @@ import FitModel.Expand
 SPECIFICATION of component expansion (C05), written without the decoder's machinery: no bit store
 (`Fit.Bits`), no `Accumulator` table (`Fit.Accum`), no index loops of `expandComponents`.
 
-* **slices**: the containing value is ONE natural number (`Physical.containerNat`: little-endian, element 0
-  least significant); component k is `sliceAt n (Σ bits of the earlier components) bits_k`; with several
+* **slices**: the containing value is ONE natural number (`container`, i.e. `Physical.containerNat` on unsigned
+  values: little-endian, element 0 least significant); component k is `sliceAt n (Σ bits of the earlier components) bits_k`; with several
   components the first zero slice ends the expansion of that container.
 * **running totals** (`Runs`): per (message number, destination field) the total a wrapping counter stands
   for, counted in units of the accumulating component (the physical total is `total / cScale − cOffset`):
@@ -105,7 +105,8 @@ def reading : Value → Option (Option Nat)
 def sameRow (c : Comp) (cs : List Comp) : Bool :=
   cs.all fun c' => c'.bits == c.bits && c'.scale == c.scale && c'.offset == c.offset
 
-/-- a wire field that is the destination of accumulating components seeds the running total -/
+/-- a wire field that is the destination of accumulating components seeds the running total (undetermined when the
+field does not carry the profile's accumulate flag: the message was not read with this profile) -/
 def seedField (t : Table) (mesg : Nat) (rs : Runs) (f : Field) : Option Runs :=
   match f.base with
   | none => some rs
@@ -113,7 +114,7 @@ def seedField (t : Table) (mesg : Nat) (rs : Runs) (f : Field) : Option Runs :=
     match accInto t mesg b.num with
     | [] => some rs
     | c :: cs =>
-      if !sameRow c cs then none
+      if !sameRow c cs || !b.accumulate then none
       else match reading f.value with
         | none => some rs
         | some none => none
@@ -156,6 +157,26 @@ def subFieldOf (fields : List Field) (subs : List SubF) : Option SubF :=
     | some f => toInt64? f.value == some m.2
     | none => false).head?
 
+/-! ### the containing value -/
+
+/-- how the specification reads a containing value: `bits n` — an unsigned integer or an array of them that fits
+the 256 bytes a FIT field (and the decoder's store) can hold, as one natural number; `noBits` — a value without bits
+(bool, string, invalid: never expanded); `unknown` — signed integers and floats: the property does not say which bits
+such a value has (no container of the profile is one) -/
+inductive Cont where
+  | bits (n : Nat) | noBits | unknown
+  deriving Repr, DecidableEq
+
+def container : Value → Cont
+  | .uint8 x => .bits (x % 2 ^ 8) | .uint16 x => .bits (x % 2 ^ 16)
+  | .uint32 x => .bits (x % 2 ^ 32) | .uint64 x => .bits (x % 2 ^ 64)
+  | .sliceUint8 xs => if xs.length ≤ 256 then .bits (catLE 8 xs) else .unknown
+  | .sliceUint16 xs => if 2 * xs.length ≤ 256 then .bits (catLE 16 xs) else .unknown
+  | .sliceUint32 xs => if 4 * xs.length ≤ 256 then .bits (catLE 32 xs) else .unknown
+  | .sliceUint64 xs => if 8 * xs.length ≤ 256 then .bits (catLE 64 xs) else .unknown
+  | .invalid | .bool _ | .string _ | .sliceBool _ | .sliceString _ => .noBits
+  | _ => .unknown
+
 /-! ### expansion -/
 
 structure S where
@@ -170,9 +191,10 @@ def expandValue (cv : CV) (t : Table) (mesg : Nat) : Nat → S → Value → Nat
   | fuel + 1, s, v, bt, comps =>
     if comps.isEmpty then some s
     else if !(valid v bt) then some s
-    else match containerNat v with
-      | none => some s
-      | some n => slices cv t mesg fuel (comps.length > 1) s n 0 comps
+    else match container v with
+      | .noBits => some s
+      | .unknown => none
+      | .bits n => slices cv t mesg fuel (comps.length > 1) s n 0 comps
 
 /-- the components in order, `off` = sum of the widths of the earlier ones -/
 def slices (cv : CV) (t : Table) (mesg : Nat) : Nat → Bool → S → Nat → Nat → List Comp → Option S
